@@ -189,6 +189,138 @@ Section Arrays.
         cbn [abs_value flat_map]. rewrite Eys. destruct a0; try discriminate. cbn [item_abs] in Ey0. injection Ey0 as <-. reflexivity.
   Qed.
 
+  (* ---- the multi-line layout: "[" ("\n    " element ",")* "\n" "]" ---- *)
+  Definition ml_decor_ok (dc : decor) : Prop := d_prefix dc = Some (RExplicit ML_PREFIX) /\ suffix_built (d_suffix dc).
+
+  Lemma wrap_ml dc dflt t : ml_decor_ok dc -> sp2 dflt -> exists b, wrap dc dflt t = ML_PREFIX ++ t ++ b /\ sp b.
+  Proof.
+    intros [Hp Hs] [_ H2]. exists (decor_suffix dc (snd dflt)). split; [|apply suffix_sp; assumption].
+    unfold wrap, decor_prefix. rewrite Hp. reflexivity.
+  Qed.
+
+  Lemma array_value_ml_pto t (Q : aval -> Prop) b R :
+    sp b -> vhead t -> chead R ->
+    pto vr t (b ++ R) d (fun v' => Q (abs_value v')) ->
+    pto (array_value vr) (ML_PREFIX ++ t ++ b) R d (fun it => exists x, item_abs it = Some x /\ Q x).
+  Proof.
+    intros Hb Hh HR Hv. unfold array_value.
+    apply pto_bind with (Q1 := fun _ => True).
+    { rewrite <- app_assoc. apply (pto_span _ _ _ _ (fun _ => True)). apply (pto_wscn_nl 4). apply vhead_wscn, Hh. }
+    intros pre _. apply pto_bind with (Q1 := fun v' => Q (abs_value v')); [exact Hv|].
+    intros v' Hv'. apply pto_bind_ret with (Q1 := fun _ => True).
+    { apply (pto_span _ _ _ _ (fun _ => True)). apply pto_wscn; [exact Hb|apply chead_wscn, HR]. }
+    intros suf _. exists (abs_value v'). cbn [item_abs]. rewrite abs_decorate. auto.
+  Qed.
+
+  Lemma elem_seg_parses_ml dflt x :
+    sp2 dflt -> ml_decor_ok (fst (fst x)) -> vhead (snd (fst x)) ->
+    (forall r, vterm r -> pto vr (snd (fst x)) r d (fun v' => snd x (abs_value v'))) ->
+    seg_parses (array_value vr) d chead (elem_seg dflt x).
+  Proof.
+    intros Hd Hb Hh Hv R HR. cbn [elem_seg seg_txt seg_ok].
+    destruct (wrap_ml (fst (fst x)) dflt (snd (fst x)) Hb Hd) as (b & -> & Hsb).
+    apply array_value_ml_pto; auto. apply Hv. apply chead_vterm; assumption.
+  Qed.
+
+  (* the element parser backtracks in front of the closing bracket *)
+  Definition vr_bt_close : Prop := forall r' p, exists e i', vr (mkIn (x5d :: r') p d) = Bt e i'.
+
+  Lemma array_value_bt_close r' : vr_bt_close -> bt_after (array_value vr) d (x0a :: x5d :: r').
+  Proof.
+    intros Hbt p. unfold array_value.
+    assert (Hstop : wscn_stop (x5d :: r')) by (cbn; repeat split; reflexivity).
+    destruct (pto_span _ _ _ _ (fun _ => True) (pto_wscn_nl 0 (x5d :: r') d Hstop) p) as (sp0 & p1 & E & _).
+    cbn [nl_blank repeat app] in E.
+    destruct (Hbt r' p1) as (e & i' & Ev).
+    exists e, i'. unfold bind at 1. rewrite E. unfold bind at 1. rewrite Ev. reflexivity.
+  Qed.
+
+  Lemma array_values_ml_pto (l : list (decor * bytes * (aval -> Prop))) r :
+    vr_bt_close ->
+    Forall (fun x => ml_decor_ok (fst (fst x)) /\ vhead (snd (fst x)) /\
+                     forall r', vterm r' -> pto vr (snd (fst x)) r' d (fun v' => snd x (abs_value v'))) l ->
+    pto (array_values vr) (arr_txt (map fst l) ++ (match l with [] => [] | _ => [x2c] end) ++ [x0a]) (x5d :: r) d
+        (fun v' => exists ys, abs_value v' = AArr ys /\ Forall2 (fun x y => snd x y) l ys).
+  Proof.
+    intros Hbt Hl p.
+    assert (Hstop : wscn_stop (x5d :: r)) by (cbn; repeat split; reflexivity).
+    destruct l as [|x0 l].
+    - (* "[" "\n" "]" *)
+      cbn [map arr_txt app].
+      destruct (array_value_bt_close r Hbt p) as (e & i' & Eb).
+      destruct (pto_span _ _ _ _ (fun _ => True) (pto_wscn_nl 0 (x5d :: r) d Hstop) p) as (tr & p2 & Ew & _).
+      cbn [nl_blank repeat app] in Ew.
+      exists (VArray [] (raw_with_span tr) false decor_default None), p2. split; [|exists []; split; [reflexivity|constructor]].
+      unfold array_values.
+      rewrite (bind_ok _ _ _ None (mkIn (x0a :: x5d :: r) p d)).
+      2:{ eapply peek_ok. eapply opt_bt. apply byte_no. reflexivity. }
+      cbv beta iota.
+      rewrite (bind_ok _ _ _ [] (mkIn (x0a :: x5d :: r) p d)) by (unfold separated0; rewrite Eb; reflexivity).
+      cbv beta iota. rewrite (bind_ok _ _ _ false (mkIn (x0a :: x5d :: r) p d)) by reflexivity.
+      rewrite (bind_ok _ _ _ _ _ Ew). reflexivity.
+    - inversion Hl as [|? ? (Hb0 & Hh0 & Hv0) Hl']; subst.
+      assert (Hsegs : Forall (seg_parses (array_value vr) d chead) (map (elem_seg DEFAULT_VALUE_DECOR) l)).
+      { clear - Hl'. induction Hl' as [|x l (Hb & Hh & Hv) _ IH]; constructor; [|exact IH].
+        apply elem_seg_parses_ml; auto using sp2_value. }
+      pose proof (elem_seg_parses_ml DEFAULT_LEADING_VALUE_DECOR x0 sp2_leading Hb0 Hh0 Hv0) as Hs0.
+      destruct (separated0_segs_tr (array_value vr) x2c d chead chead_sep _ _ (x0a :: x5d :: r) Hs0 Hsegs
+                                   (array_value_bt_close r Hbt) p) as (res & p1 & E & Hres).
+      destruct (pto_span _ _ _ _ (fun _ => True) (pto_wscn_nl 0 (x5d :: r) d Hstop) (p1 + 1)%N) as (tr & p2 & Ew & _).
+      cbn [nl_blank repeat app] in Ew.
+      assert (Etxt : (arr_txt (map fst (x0 :: l)) ++ [x2c] ++ [x0a]) ++ x5d :: r
+                     = seg_txt (elem_seg DEFAULT_LEADING_VALUE_DECOR x0)
+                       ++ segs_txt x2c (map (elem_seg DEFAULT_VALUE_DECOR) l) ++ x2c :: x0a :: x5d :: r).
+      { cbn [map arr_txt]. destruct x0 as [[d0 t0] Q0]. cbn [fst snd elem_seg seg_txt].
+        rewrite arr_tail_segs, <- !app_assoc. reflexivity. }
+      rewrite Etxt.
+      set (TXT := seg_txt (elem_seg DEFAULT_LEADING_VALUE_DECOR x0) ++ segs_txt x2c (map (elem_seg DEFAULT_VALUE_DECOR) l)
+                  ++ x2c :: x0a :: x5d :: r) in *.
+      assert (Hhead : stops (byte_eqb ARRAY_CLOSE) TXT).
+      { unfold TXT. cbn [elem_seg seg_txt].
+        destruct (wrap_ml (fst (fst x0)) DEFAULT_LEADING_VALUE_DECOR (snd (fst x0)) Hb0 sp2_leading) as (b & -> & _).
+        reflexivity. }
+      inversion Hres as [|s0 a0 ? res' Ha0 Hres']; subst.
+      exists (VArray (a0 :: res') (raw_with_span tr) true decor_default None), p2. split.
+      + unfold array_values.
+        rewrite (bind_ok _ _ _ None (mkIn TXT p d)).
+        2:{ eapply peek_ok. eapply opt_bt. apply byte_no. exact Hhead. }
+        cbv beta iota. rewrite (bind_ok _ _ _ _ _ E). cbv beta iota.
+        rewrite (bind_ok _ _ _ true (mkIn (x0a :: x5d :: r) (p1 + 1)%N d)).
+        2:{ rewrite (pmap_ok _ _ _ (Some x2c) (mkIn (x0a :: x5d :: r) (p1 + 1)%N d)); [reflexivity|].
+            apply opt_ok. apply byte_yes. }
+        rewrite (bind_ok _ _ _ _ _ Ew). reflexivity.
+      + cbn [elem_seg seg_ok] in Ha0. destruct Ha0 as (y0 & Ey0 & Hy0).
+        assert (Htl : exists ys, flat_map (fun it => match it with IValue e => [abs_value e] | _ => [] end) res' = ys
+                                 /\ Forall2 (fun x y => snd x y) l ys).
+        { clear - Hres'. revert res' Hres'. induction l as [|x l IH]; intros res' H; inversion H as [|? a ? res2 Ha Hr]; subst.
+          - exists []. split; [reflexivity|constructor].
+          - destruct (IH _ Hr) as (ys & Eys & Hys). cbn [elem_seg seg_ok] in Ha. destruct Ha as (y & Ey & Hy).
+            exists (y :: ys). split; [|constructor; assumption].
+            cbn [flat_map]. rewrite Eys. destruct a; try discriminate. cbn [item_abs] in Ey. injection Ey as <-. reflexivity. }
+        destruct Htl as (ys & Eys & Hys).
+        exists (y0 :: ys). split; [|constructor; assumption].
+        cbn [abs_value flat_map]. rewrite Eys. destruct a0; try discriminate. cbn [item_abs] in Ey0. injection Ey0 as <-. reflexivity.
+  Qed.
+
+  Lemma array_ml_pto l r :
+    vr_bt_close ->
+    Forall (fun x => ml_decor_ok (fst (fst x)) /\ vhead (snd (fst x)) /\
+                     forall r', vterm r' -> pto vr (snd (fst x)) r' d (fun v' => snd x (abs_value v'))) l ->
+    pto (array vr) (x5b :: (arr_txt (map fst l) ++ (match l with [] => [] | _ => [x2c] end) ++ [x0a]) ++ [x5d]) r d
+        (fun v' => exists ys, abs_value v' = AArr ys /\ Forall2 (fun x y => snd x y) l ys).
+  Proof.
+    intros Hbt Hl. unfold array.
+    change (x5b :: (arr_txt (map fst l) ++ (match l with [] => [] | _ => [x2c] end) ++ [x0a]) ++ [x5d])
+      with ([x5b] ++ (arr_txt (map fst l) ++ (match l with [] => [] | _ => [x2c] end) ++ [x0a]) ++ [x5d]).
+    apply pto_bind with (Q1 := fun _ => True); [apply pto_byte|]. intros _ _.
+    apply pto_bind with (Q1 := fun v' => exists ys, abs_value v' = AArr ys /\ Forall2 (fun x y => snd x y) l ys).
+    { apply pto_cut_err. apply array_values_ml_pto; assumption. }
+    intros v' Hv'.
+    change (context (cut_err (byte_ ARRAY_CLOSE));;; ret v') with (bind (context (cut_err (byte_ ARRAY_CLOSE))) (fun _ => ret v')).
+    apply pto_bind_ret with (Q1 := fun _ => True); [|intros _ _; exact Hv'].
+    apply pto_context, pto_cut_err, pto_byte.
+  Qed.
+
   (* array = `[` array_values `]` *)
   Lemma array_pto l r :
     Forall (fun x => decor_built (fst (fst x)) /\ vhead (snd (fst x)) /\
@@ -437,6 +569,31 @@ Proof.
   specialize (IH H). lia.
 Qed.
 
+Lemma value_depth_ml_elem e : value_depth (ml_elem e) = value_depth e.
+Proof. destruct e; reflexivity. Qed.
+Lemma abs_ml_elem e : abs_value (ml_elem e) = abs_value e.
+Proof. destruct e; reflexivity. Qed.
+Lemma abs_built_array_ml es tr c d sp0 :
+  abs_value (VArray (map (fun e => IValue (ml_elem e)) es) tr c d sp0) = AArr (map abs_value es).
+Proof.
+  cbn [abs_value]. f_equal. induction es as [|e es IH]; [reflexivity|]. cbn [map flat_map app]. rewrite IH, abs_ml_elem. reflexivity.
+Qed.
+Lemma depth_built_array_ml es tr c d sp0 e :
+  In e es -> value_depth e < value_depth (VArray (map (fun e => IValue (ml_elem e)) es) tr c d sp0).
+Proof.
+  intro H. cbn [value_depth]. apply Nat.lt_succ_r.
+  induction es as [|x es IH]; [contradiction|]. cbn [map fold_right]. rewrite value_depth_ml_elem.
+  destruct H as [-> | H]; [lia|]. specialize (IH H). lia.
+Qed.
+
+(* the value parser backtracks on a closing bracket (dispatch: `_ => fail`) *)
+Lemma value_f_bt_close f r p d : exists e i', value_f (S f) (mkIn (x5d :: r) p d) = Bt e i'.
+Proof.
+  cbn [value_f]. unfold value_step, with_span, pmap, value_body, bind.
+  assert (E : context (peek any) (mkIn (x5d :: r) p d) = Ok x5d (mkIn (x5d :: r) p d)) by reflexivity.
+  rewrite E. do 2 eexists. reflexivity.
+Qed.
+
 Section Main.
   Variable ftext : fval -> bytes.
   Local Notation txt := (txt ftext).
@@ -487,6 +644,34 @@ Section Main.
       { apply pto_eq with (q' := check_recursion (array (value_f f))); [intro p0; apply value_body_array|].
         apply pto_check_recursion; [exact Hrec|]. apply array_pto. exact Hl. }
       exists v', p'. split; [exact E|]. rewrite Ea. unfold v. rewrite abs_built_array. f_equal.
+      clear - Hys. unfold l in Hys. revert ys Hys. induction es as [|e es IHes]; intros ys H; inversion H; subst; [reflexivity|].
+      cbn [map snd] in *. f_equal; [assumption|apply IHes; assumption].
+    - (* arrays in the multi-line layout *)
+      intros es dcr _ Hes IH. split.
+      { rewrite txt_array_ml. exists x5b. eexists. split; [reflexivity|apply vstart_open_array]. }
+      intros fuel r d Hr Hf Hd. destruct fuel as [|f]; [lia|].
+      set (v := VArray (map (fun e => IValue (ml_elem e)) es) (RExplicit [x0a]) true dcr None) in *.
+      set (l := map (fun e => (ml_decor e, txt e, fun y => y = abs_value e)) es).
+      assert (Etxt : txt v = x5b :: (arr_txt (map fst l) ++ (match l with [] => [] | _ => [x2c] end) ++ [x0a]) ++ [x5d]).
+      { unfold v, l. rewrite txt_array_ml, map_map. cbn [fst]. destruct es; cbn [map]; rewrite <- ?app_assoc; reflexivity. }
+      rewrite Etxt.
+      assert (Hl : Forall (fun x => ml_decor_ok (fst (fst x)) /\ vhead (snd (fst x)) /\
+                                    forall r', vterm r' -> pto (value_f f) (snd (fst x)) r' (S d) (fun v' => snd x (abs_value v'))) l).
+      { unfold l. apply Forall_forall. intros x Hx. apply in_map_iff in Hx as (e & <- & He). cbn [fst snd].
+        rewrite Forall_forall in IH, Hes. destruct (IH e He) as [Hh Hp].
+        split; [split; [reflexivity|apply (built_decor _ _ _ (Hes e He))]|]. split; [exact Hh|].
+        intros r' Hr'. pose proof (depth_built_array_ml es (RExplicit [x0a]) true dcr None e He) as Hlt. fold v in Hlt.
+        apply Hp; [exact Hr'|lia|lia]. }
+      assert (Hrec : S d < LIMIT) by (unfold v in Hd; cbn [value_depth] in Hd; lia).
+      assert (Hbt : vr_bt_close (value_f f) (S d)).
+      { intros r' p0. destruct f as [|f']; [unfold v in Hf; cbn [value_depth] in Hf; lia|]. apply value_f_bt_close. }
+      intro p.
+      destruct (pto_value_step (value_f f) (x5b :: (arr_txt (map fst l) ++ (match l with [] => [] | _ => [x2c] end) ++ [x0a]) ++ [x5d]) r d
+                  (fun a => exists ys, a = AArr ys /\ Forall2 (fun x y => snd x y) l ys)) with (p := p)
+        as (v' & p' & E & ys & Ea & Hys).
+      { apply pto_eq with (q' := check_recursion (array (value_f f))); [intro p0; apply value_body_array|].
+        apply pto_check_recursion; [exact Hrec|]. apply array_ml_pto; [exact Hbt|exact Hl]. }
+      exists v', p'. split; [exact E|]. rewrite Ea. unfold v. rewrite abs_built_array_ml. f_equal.
       clear - Hys. unfold l in Hys. revert ys Hys. induction es as [|e es IHes]; intros ys H; inversion H; subst; [reflexivity|].
       cbn [map snd] in *. f_equal; [assumption|apply IHes; assumption].
     - (* inline tables *)
